@@ -156,4 +156,11 @@ def TSt.step (s : TSt) (lt : IdLt) (op : TOp) : TSt :=
 
 def TSt.run (s : TSt) (lt : IdLt) (ops : List TOp) : TSt := ops.foldl (fun s op => s.step lt op) s
 
+/-- the quantitative form of `NotStranded`: while callers wait, a timer that will act for them (the rekey timer,
+    or the handshake timer together with a prospective session) is due no later than one backoff from now -/
+def TSt.ActsSoon (s : TSt) : Prop :=
+  s.t.chan.waiting > 0 →
+    (∃ a, s.t.rekeyAt = some a ∧ a ≤ s.now + s.t.backoff) ∨
+    (s.t.chan.next.isSome ∧ ∃ b, s.t.hsAt = some b ∧ b ≤ s.now + s.t.backoff)
+
 end P2PVerif.P2PKE
